@@ -1,19 +1,24 @@
 #!/usr/bin/env python3
-"""Print the markdown table of seeded changes and what the checks said (from seeded/*/meta.json and result.txt)."""
+"""Print the markdown tables of seeded changes and what the checks said (from seeded*/<ID>/meta.json and result.txt)."""
 import json, os, glob
-rows=[]
-for d in sorted(glob.glob('/verif/seeded/C*')):
-    i=os.path.basename(d)
-    try: m=json.load(open(d+'/meta.json'))
-    except Exception: continue
-    r=open(d+'/result.txt').read().strip() if os.path.exists(d+'/result.txt') else 'not run'
-    r=r.replace(i+' ','',1)
-    rows.append((i, ', '.join(os.path.basename(f) for f in m.get('files',[])), m.get('summary','').replace('|','/')[:230], m.get('trigger','').replace('|','/')[:200], r))
-print('| id | file | seeded change | needs | result of `check <id>` with the change applied |')
-print('|----|------|---------------|-------|------------------------------------------------|')
-for r in rows: print('| '+' | '.join(r)+' |')
-print()
-print('Reverse-of-fix seeds (`seeded/regress-<commit>/`, quick tier only):')
+def table(root, title):
+    rows=[]
+    for d in sorted(glob.glob(root+'/C*')):
+        i=os.path.basename(d)
+        try: m=json.load(open(d+'/meta.json'))
+        except Exception: continue
+        r=open(d+'/result.txt').read().strip() if os.path.exists(d+'/result.txt') else 'not run'
+        r=r.replace(i+' ','',1)
+        first=open(d+'/first_result.txt').read().strip() if os.path.exists(d+'/first_result.txt') else ''
+        rows.append((i.split('-')[0], ', '.join(os.path.basename(f) for f in m.get('files',[])), m.get('summary','').replace('|','/')[:170], first, r))
+    print(title); print()
+    print('| id | file | seeded change (abridged) | first run | with the checks as committed |')
+    print('|----|------|--------------------------|-----------|------------------------------|')
+    for r in rows: print('| '+' | '.join(r)+' |')
+    print()
+table('/verif/seeded', '**Round 1** (`seeded/<ID>/`)')
+if os.path.isdir('/verif/seeded/round2'): table('/verif/seeded/round2', '**Round 2** (`seeded/round2/<ID>/`)')
+print('**Reverse-of-fix seeds** (`seeded/regress-<commit>/`, quick tier):')
 print()
 print('| commit | property | result |')
 print('|--------|----------|--------|')
